@@ -205,9 +205,78 @@ def guess_block(nmodels):
     return collect(eng, run, base, cfg)
 
 
+def ctor_block(_b):
+    """ModelIsotherm.__init__ (fitting route): for every order of the data points the model is created with
+    pressure_range = (min, max) of the pressures and loading_range = (min, max) of the loadings of the branch that is
+    fitted, and exactly those points are handed to fit -- exhaustive over the 24 orders of four distinct points, list and
+    table input, both branches (the recorded call of the real constructor with a recording model factory)."""
+    import itertools
+    import pandas
+    import pygaps
+    import pygaps.core.modelisotherm as MI
+    pygaps.logger.disabled = True
+    obs = []
+    base = f"{P}/modelisotherm.ModelIsotherm.__init__"
+    real = MI.get_isotherm_model
+    rec = {}
+
+    class FakeModel:
+        name = 'Langmuir'
+        param_names = ('K', 'n_m')
+        rmse = 0.0
+
+        def __init__(self, **kw):
+            rec['factory'] = kw
+            self.params = {'K': 1.0, 'n_m': 1.0}
+            self.pressure_range, self.loading_range = kw.get('pressure_range'), kw.get('loading_range')
+
+        def __init_parameters__(self, other):
+            pass
+
+        def initial_guess(self, p, l):
+            rec['guess_args'] = (list(p), list(l))
+            return {'K': 1.0, 'n_m': 1.0}
+
+        def fit(self, p, l, guess, *a):
+            rec['fit'] = (list(p), list(l), guess)
+
+    MI.get_isotherm_model = lambda model, **kw: FakeModel(**kw)
+    meta = dict(material='pgv_c12', adsorbate='nitrogen', temperature=77.0, pressure_mode='relative', pressure_unit=None, loading_basis='molar',
+                loading_unit='mmol', material_basis='mass', material_unit='g', temperature_unit='K')
+    try:
+        pts = [(0.1, 1.0), (0.2, 2.5), (0.4, 3.0), (0.7, 4.5)]
+        bad_lists, bad_tables = [], []
+        for perm in itertools.permutations(pts):
+            p, l = [a for a, _ in perm], [b for _, b in perm]
+            rec.clear()
+            MI.ModelIsotherm(pressure=p, loading=l, model='Langmuir', **meta)
+            f = rec.get('factory', {})
+            ok = tuple(f.get('pressure_range', ())) == (0.1, 0.7) and tuple(f.get('loading_range', ())) == (1.0, 4.5) and rec.get('fit', (None, None))[:2] == (p, l)
+            if not ok:
+                bad_lists.append({'pressure': p, 'loading': l, 'ranges': (f.get('pressure_range'), f.get('loading_range'))})
+        obs.append(static_ob(f"{base}/fit.ranges_are_min_max_of_the_fitted_points_and_all_points_are_fitted/arrays|24_orders", not bad_lists, str(bad_lists[:2])[:300],
+                             backend='trace', replay={'kind': 'c12.ranges'}))
+        # table route with a desorption branch (stored high-to-low): only that branch, ranges (min, max)
+        for branch in ('ads', 'des'):
+            df = pandas.DataFrame({'pressure': [0.1, 0.2, 0.4, 0.7, 0.5, 0.3, 0.15], 'loading': [1.0, 2.5, 3.0, 4.5, 4.2, 3.6, 2.9], 'branch': [0, 0, 0, 0, 1, 1, 1]})
+            rec.clear()
+            MI.ModelIsotherm(isotherm_data=df, pressure_key='pressure', loading_key='loading', model='Langmuir', branch=branch, **meta)
+            f = rec.get('factory', {})
+            want_p = [0.1, 0.2, 0.4, 0.7] if branch == 'ads' else [0.5, 0.3, 0.15]
+            want_l = [1.0, 2.5, 3.0, 4.5] if branch == 'ads' else [4.2, 3.6, 2.9]
+            ok = tuple(f.get('pressure_range', ())) == (min(want_p), max(want_p)) and tuple(f.get('loading_range', ())) == (min(want_l), max(want_l)) \
+                and sorted(rec.get('fit', ([], []))[0]) == sorted(want_p) and sorted(rec.get('fit', ([], []))[1]) == sorted(want_l)
+            obs.append(static_ob(f"{base}/fit.ranges_are_min_max_of_the_fitted_points_and_all_points_are_fitted/table|branch={branch}", ok,
+                                 str({'ranges': (f.get('pressure_range'), f.get('loading_range')), 'fitted': rec.get('fit', (None, None))[:2]})[:300], backend='trace',
+                                 replay={'kind': 'c12.ranges'}))
+    finally:
+        MI.get_isotherm_model = real
+    return obs
+
+
 def _dispatch(job):
     kind, arg = job
-    return {'fit': fit_block, 'clamp': clamp_block, 'guess': guess_block}[kind](arg)
+    return {'fit': fit_block, 'clamp': clamp_block, 'guess': guess_block, 'ctor': ctor_block}[kind](arg)
 
 
 FIT_MODELS = ['Henry', 'Langmuir', 'DSLangmuir', 'BET', 'Quadratic', 'TemkinApprox', 'FHVST']
@@ -222,7 +291,7 @@ def run(rep):
                'convergence, recovery of generating parameters, refit stability and unit covariance are numerical facts about the optimiser: bounded only')
     rep.trust('CPython 3.12', 'z3 5.1.0', 'pgv.sx', 'pgv.lift', 'pgv.npproxy')
     jobs = [('fit', (n, 'ok')) for n in FIT_MODELS] + [('fit', (n, 'ok', 'reversed')) for n in FIT_MODELS if n != 'Henry'] + [('fit', (n, mode)) for n in ('Langmuir', 'FHVST') for mode in ('fail', 'ValueError')] + \
-        [('clamp', None)] + [('guess', k) for k in (1, 2, 3, 4)]
+        [('clamp', None), ('ctor', None)] + [('guess', k) for k in (1, 2, 3, 4)]
     obs, crashes = par.pmap(_dispatch, jobs)
     rep.extend(obs)
     if crashes:
